@@ -163,7 +163,7 @@ func dtlcpScript(s scen) (string, string) {
 		cvBits: cvBits, finOK: finOK, roots: st.Root.Pool, now: pki.Now}
 	cs := srv.ConnectionState()
 	ob := connObs{err: serr, resumed: cs.DidResume, peers: len(cs.PeerCertificates), chains: len(cs.VerifiedChains),
-		req: ci.sf.has(13), alert: alertTok(ci.sf), panicked: panicked}
+		req: reqTok(ci.sf), alert: alertTok(ci.sf), panicked: panicked}
 	go func() { srv.Close() }()
 	if !sc.PeerFinishedOK {
 		ob.cliErr = fmt.Errorf("no server Finished")
